@@ -19,7 +19,7 @@ BR = {"(": ")", "[": "]", "{": "}"}
 OPEN = set(BR)
 CLOSE = set(BR.values())
 ALLB = sorted(OPEN | CLOSE)
-INJECT = ["@", "`", "\\", "/* c */", "// c\n", "'", '"', "\n#include <x.h>\n", "\n#define X 1\n", "\n#if 1\n", "$$@", "\\n",
+INJECT = ["@", "`", "\\", "\\\n", "\\\n\t", "\\ \n", "\\\r\n", "/* c */", "// c\n", "'", '"', "\n#include <x.h>\n", "\n#define X 1\n", "\n#if 1\n", "$$@", "\\n",
           # directives whose name merely resembles a supported one, and every other common directive
           "\n#pragmatic once\n", "\n#pragma_pack(1)\n", "\n# pragma2 foo\n", "\n#pragmas )]{ @\n", "\n#linex 5\n", "\n#line5\n",
           "\n#lineage\n", "\n# lines 3\n", "\n#ident \"x\"\n", "\n#error x\n", "\n#undef X\n", "\n#endif\n", "\n#else\n", "\n#warning w\n",
@@ -81,7 +81,7 @@ def run(ctx):
     args = [(t, rng.randrange(1 << 30), cap) for t in texts]
     lists = pmap(mutants_of, args)
     muts = [(t, k, m) for (t, _, _), l in zip(args, lists) for (k, m) in l]
-    ctx.rule("for every accepted program of the pool (" + progs.RULE + "): single-bracket deletions, duplications and kind swaps (all bracket positions up to %d per program) and injections of non-token text (stray characters, comments, lone quotes, foreign directives) at random token boundaries; plus all bracket strings of length <=%d in 5 contexts; plus 8 forms of #line / linemarker directives followed on their line by 24 kinds of stray text (brackets, characters, comments, tokens) in 4 places" % (cap, 5 if ctx.quick() else 8))
+    ctx.rule("for every accepted program of the pool (" + progs.RULE + "): single-bracket deletions, duplications and kind swaps (all bracket positions up to %d per program) and injections of non-token text (stray characters - a backslash in the middle and at the end of a line -, comments, lone quotes, foreign directives) at random token boundaries; plus all bracket strings of length <=%d in 5 contexts; plus 8 forms of #line / linemarker directives followed on their line by 24 kinds of stray text (brackets, characters, comments, tokens) in 4 places" % (cap, 5 if ctx.quick() else 8))
     res = pmap(_rej, [m for _, _, m in muts])
     md = run_model([parse_req(m, "f.c") for _, _, m in muts]) if ctx.model_available else None
     keys = set()
